@@ -155,24 +155,53 @@ Definition group_k (k : ty -> list tk -> dres (ty * list tk))
     | DErr e => DErr e
     end).
 
-Fixpoint cvptr (fuel : nat) (d : ty) (toks : list tk) {struct fuel} : dres (ty * list tk) :=
+(* `while True: gtok = token_if("("); ...consume_balanced...; return_tokens(toks[1:-1])`: inner grouping parentheses in
+   front of a parameter list are removed (nonptr_fn branch only) *)
+Fixpoint strip_parens (n : nat) (toks : list tk) {struct n} : dres (list tk) :=
+  match n with
+  | O => DErr 9
+  | S n' =>
+      match toks with
+      | t :: r => if is LP t then lift (consume kty [RP] [t] r) (fun grp r' => strip_parens n' (middle grp ++ r')) else DOk toks
+      | [] => DOk toks
+      end
+  end.
+
+(* nf is the nonptr_fn argument: set only for template arguments, where a parenthesis that does not start a
+   declarator group opens the parameter list of a plain function type *)
+Fixpoint cvptr_g (nf : bool) (fuel : nat) (d : ty) (toks : list tk) {struct fuel} : dres (ty * list tk) :=
   match fuel with
   | O => DErr 9
   | S f =>
       match toks with
       | t :: r =>
-          if is STAR t then (if is_ref d then DErr 1 else cvptr f (TPtr d false false) r)
-          else if is T_const t then match set_const d with DOk d' => cvptr f d' r | DErr e => DErr e end
-          else if is T_volatile t then match set_volatile d with DOk d' => cvptr f d' r | DErr e => DErr e end
+          if is STAR t then (if is_ref d then DErr 1 else cvptr_g nf f (TPtr d false false) r)
+          else if is T_const t then match set_const d with DOk d' => cvptr_g nf f d' r | DErr e => DErr e end
+          else if is T_volatile t then match set_volatile d with DOk d' => cvptr_g nf f d' r | DErr e => DErr e end
           else if is LP t then
             match r with
             | t2 :: _ =>
-                if is_pfx_tok t2 then group_k (cvptr f) (arrtype f) (params f) d t r
-                else after_k (cvptr f) d toks          (* return_token(tok); break *)
-            | [] => after_k (cvptr f) d toks
+                if is_pfx_tok t2 then group_k (cvptr_g nf f) (arrtype f) (params f) d t r
+                else if nf then
+                  (* a plain function type: inner grouping parentheses removed, the parameter list, then the loop goes on *)
+                  match strip_parens (S (length r)) r with
+                  | DErr e => DErr e
+                  | DOk r0 =>
+                      match params f r0 with
+                      | DErr e => DErr e
+                      | DOk (ps, va, r1) =>
+                          if is_fn d then DErr 3
+                          else match r1 with
+                               | a :: _ => if is T_ARROW a then DErr 4 else cvptr_g nf f (TFn d ps va) r1
+                               | [] => cvptr_g nf f (TFn d ps va) r1
+                               end
+                      end
+                  end
+                else after_k (cvptr_g nf f) d toks          (* return_token(tok); break *)
+            | [] => if nf then DErr 2 else after_k (cvptr_g nf f) d toks
             end
-          else after_k (cvptr f) d toks
-      | [] => after_k (cvptr f) d toks
+          else after_k (cvptr_g nf f) d toks
+      | [] => after_k (cvptr_g nf f) d toks
       end
   end
 
@@ -222,7 +251,7 @@ with param (fuel : nat) (toks : list tk) {struct fuel} : dres ((ty * option N) *
       match parse_base toks with
       | DErr e => DErr e
       | DOk (b, r) =>
-          match cvptr f b r with
+          match cvptr_g false f b r with
           | DErr e => DErr e
           | DOk (d, r1) =>
               if is_fn d then DErr 3            (* _parse_cv_ptr: unexpected function type *)
@@ -252,6 +281,8 @@ with param (fuel : nat) (toks : list tk) {struct fuel} : dres ((ty * option N) *
           end
       end
   end.
+
+Notation cvptr := (cvptr_g false).
 
 (* the declarator of a variable after its base type: up to (not including)
    the ';' or ',' that ends it *)
